@@ -91,6 +91,29 @@ Theorem C02_crash_before_save :
 Proof. exact crash_before_save. Qed.
 Print Assumptions C02_crash_before_save.
 
+(* The one crash point inside the save - after gengo.sum was opened with O_TRUNC, before its bytes are written -
+   leaves an EMPTY gengo.sum (every generated file is complete at that point) ... *)
+Theorem C02_crash_inside_save :
+  forall (E : env) a w gens s,
+    exec_outcome E a w gens s = Done -> a_all a = true ->
+    fs_lookup (sum_path w)
+      (apply_all (firstn (S (List.length (pkgs_effects E a w gens s))) (effects E a w gens s)) s) = Some [].
+Proof. exact crash_inside_save. Qed.
+Print Assumptions C02_crash_inside_save.
+
+(* ... and an empty gengo.sum is never trusted: the next run regenerates every package that has a directory hash.
+   (What sumfile.Load makes of a partly written sum is the C08 check's sumfile model.) *)
+Theorem C02_empty_sum_regenerates :
+  forall (E : env) a w s p,
+    e_sum_load E [] = [] -> fs_lookup (sum_path w) s = Some [] ->
+    sum_get (current_sum w) (pk_path p) <> [] ->
+    pkg_changed a w (load_prev E a w s) p = true.
+Proof. exact empty_sum_regenerates. Qed.
+Print Assumptions C02_empty_sum_regenerates.
+
+Example C02_example_byte_level_load_of_nothing : sumfile_load [] = [].
+Proof. vm_compute. reflexivity. Qed.
+
 (* non-vacuity, on a two-package All run with previous outputs and a previous sum *)
 Example C02_example_error_at_call_index_2 :
   let '(s', tr, out) := wf_run (mk_step (bs "var A2 = 1") RErr false false []) (ok_step "var B0 = 1") in
